@@ -9,6 +9,7 @@
 //!   jsonld-list   : JSON-LD serialisation of one rdf:List of N items (jsonld/src/serializer/engine.rs)
 //!   jsonld-many   : JSON-LD serialisation of N flat quads in N/10 named graphs
 //!   turtle-list   : pretty Turtle of one collection of N items                         (turtle/src/serializer/_pretty.rs)
+//!   turtle-objects: pretty Turtle of ONE subject with N rdf:type objects and N objects of another predicate
 //!   turtle-many   : pretty Turtle / TriG of N flat statements, N subjects, N/10 named graphs
 use sophia_api::prelude::*;
 use sophia_api::serializer::{QuadSerializer, Stringifier, TripleSerializer};
@@ -111,6 +112,18 @@ fn run(site: &str, n: usize) -> usize {
         }
         "turtle-list" => {
             let g: LightGraph = list_graph(n).triples().collect_triples().unwrap();
+            let cfg = sophia_turtle::serializer::turtle::TurtleConfig::new().with_pretty(true);
+            let mut ser = sophia_turtle::serializer::turtle::TurtleSerializer::new_stringifier_with_config(cfg);
+            ser.serialize_graph(&g).unwrap();
+            ser.as_str().len()
+        }
+        "turtle-objects" => {
+            // ONE subject with N rdf:type objects and N objects of another predicate (object lists, not nesting)
+            let mut g = LightGraph::new();
+            for i in 0..n {
+                g.insert(iri("x:s".into()), iri(format!("{}type", RDF)), iri(format!("x:C{}", i))).unwrap();
+                g.insert(iri("x:s".into()), iri("x:p".into()), iri(format!("x:o{}", i))).unwrap();
+            }
             let cfg = sophia_turtle::serializer::turtle::TurtleConfig::new().with_pretty(true);
             let mut ser = sophia_turtle::serializer::turtle::TurtleSerializer::new_stringifier_with_config(cfg);
             ser.serialize_graph(&g).unwrap();
